@@ -18,6 +18,9 @@ class C13(Prop):
                "rmprefix": 2, "move": 3, "rule": 2, "unrule": 1, "reopen": 1}
     QUICK = (40, 22)
     THOROUGH = (200, 40)
+    TECHNIQUE = ("stateful property-based testing (Hypothesis) against a ledger oracle; thorough tier adds coverage-guided "
+                 "fuzzing of histories (atheris/libFuzzer driving Hypothesis' fuzz_one_input)")
+    FUZZ_RUNS = 400
     ASSUMPTIONS = ["prefix map from the ledger (explicit edits + reported creations) defines the expected hierarchy"]
 
     def before_op(self, case, op):
